@@ -110,6 +110,10 @@ def main():
             return int(model.get(str(t), 0))
     qaptools_c.SymInt = NSym
     zkif_c.SymInt = NSym
+    from contracts import backend_c
+    backend_c.SymInt = NSym
+    if kind == "qap":
+        importlib.import_module("pysnark.runtime")      # selects the qaptools backend through PYSNARK_BACKEND
 
     def live(name=None):
         out = []
@@ -190,14 +194,14 @@ def main():
         base = clause.split("[")[0]
         holds = None
         if base.startswith("R."):
-            raises = K.raises(c)
+            raises = K.raises(c, *args, **kwargs)
             if out["outcome"] == "raise":
                 conds = [cond for ex, cond in raises if isinstance(exc, ex)]
                 holds = any(z3.is_true(z3.simplify(sym.formula(cd))) for cd in conds)
             else:
                 holds = not any(z3.is_true(z3.simplify(sym.formula(cond))) for ex, cond in raises)
         elif out["outcome"] == "return" or cfg.get("raises_only"):
-            post = K.post(c, r)
+            post = K.post(c, r, *args, **kwargs)
             val = post.get(clause)
             if val is not None:
                 if isinstance(val, bool):
